@@ -175,7 +175,8 @@ theorem parse_wheel_filename_eq_model (f : Str) (hf : ∀ c ∈ f, c < 128) :
     Gen.PySrc.parse_wheel_filename (.str f) = ofWheelResult (Fn.parseWheel f) := by
   unfold Gen.PySrc.parse_wheel_filename Fn.parseWheel
   have hs4 := getslice_str_neg f 4 (by omega)
-  simp only [str_endswith_str, ok_bind, truthy_bool, show (PyVal.int (-4)) = PyVal.int (-((4 : Nat) : Int)) from rfl, hs4,
+  simp only [str_endswith_str, ok_bind, truthy_bool, show (PyVal.int (-4)) = PyVal.int (-((4 : Nat) : Int)) from rfl,
+    len_str, neg_int, show List.length Fn.whl = 4 from rfl, hs4,
     show ofString ".whl" = Fn.whl from rfl, show ofString "-" = [45] from rfl, str_count_single]
   by_cases hext : endsWith f Fn.whl = true
   · simp only [hext, Bool.not_true, Bool.false_eq_true, if_false]
@@ -198,6 +199,7 @@ theorem parse_wheel_filename_eq_model (f : Str) (hf : ∀ c ∈ f, c < 128) :
       have hsplit := hsub 4 (by omega)
       simp only [show ((4 : Nat) : Int) - 2 = 2 from rfl, show 4 - 2 = 2 from rfl, hparts] at hsplit
       simp only [contains, List.any_cons, List.any_nil, eq_int, show ((4 : Nat) : Int) = 4 from rfl, pure_ok, ok_bind,
+        beq_self_eq_true, if_true, Bool.false_eq_true, if_false, show ((4 : Int) == 5) = false from rfl,
         sub_int, show (4 : Int) - 2 = 2 from rfl, hsplit, List.map_cons, List.map_nil, getitem_list_zero, getitem_list_one,
         in_, isInfix_dunder, show ofString "__" = [95, 95] from rfl, truthy_bool, pure_bind,
         show Gen.NameTables.wheelNameStructureOk = true from rfl, match_class_star_wheel, canonicalize_name_plain, mkVersion_scan,
@@ -215,6 +217,9 @@ theorem parse_wheel_filename_eq_model (f : Str) (hf : ∀ c ∈ f, c < 128) :
             int_ (.str (p2.takeWhile Fn.isUDigit)) = .ok (.int (Fn.intU (p2.takeWhile Fn.isUDigit))) :=
           fun hne => int_digits _ hne (fun c hc => mem_takeWhile_p _ _ c hc)
         simp only [contains, List.any_cons, List.any_nil, eq_int, show ((5 : Nat) : Int) = 5 from rfl, pure_ok, ok_bind,
+          beq_self_eq_true, if_true, Bool.false_eq_true, if_false, show ((5 : Int) == 4) = false from rfl,
+          show getitem (PyVal.list [.str p0, .str p1, .str p2, .str p3]) (PyVal.int 1) = .ok (.str p1) from rfl,
+          match_groups_match, unpack2,
           sub_int, show (5 : Int) - 2 = 3 from rfl, hsplit, List.map_cons, List.map_nil, getitem_list_zero, getitem_list_one,
           in_, isInfix_dunder, show ofString "__" = [95, 95] from rfl, truthy_bool, pure_bind,
           show Gen.NameTables.wheelNameStructureOk = true from rfl, match_class_star_wheel, canonicalize_name_plain, mkVersion_scan,
